@@ -1,6 +1,6 @@
 SPECIFICATION MCSpec
 CONSTANTS
-  E = 3
+  E = 4
   F = 2
 INVARIANTS Conforms Emit
 CHECK_DEADLOCK FALSE
